@@ -38,6 +38,7 @@ type MCont struct {
 	Dig    DigesterSpec // root maps created with the harness digester; Kind "default" otherwise
 	Seed   uint64       // map seed as reported by the library at creation (pure function of VID)
 	Volatile bool       // temp-owner container
+	Detached bool       // was removed from / overwritten in a parent and kept alive
 }
 
 func (c *MCont) Count() int {
